@@ -19,6 +19,13 @@ variant b - "inside a refactoring": restructure at least 60 lines of the code th
   would pass review as a behaviour-preserving clean-up (extract helpers, table-driven dispatch, iterator chains,
   builder struct, early returns, merged arms, renamed locals ...), and let exactly one behaviour change that breaks
   the property ride along inside it. Everything else must behave as before.""",
+    '4': """This is a later round; earlier rounds already produced plain slips, cooperating edits, narrow-trigger needles and
+changes hidden in refactorings - all against the library's original code shape. The worktree you are given has since been
+restructured by a (behaviour-preserving) refactoring, so the code does not look like the upstream repository any more. Read it
+as it is now. Produce two changes that differ from each other in mechanism (for example: one in how a value is computed or
+checked, one in how data or state travels between the new helpers / types / tables this code base now has). Prefer faults that
+this particular code shape invites - a wrong table row, a helper called with swapped or stale arguments, a builder used in
+the wrong order, an early return added in a shared helper, a bound that one of several callers relied on.""",
 }
 
 
